@@ -58,12 +58,12 @@ impl TxIn {
     pub(crate) fn get_finalised_script_impl(&self) -> Result<Script, BSVErrors> {
         match self.locking_script.as_ref() {
             // If there is a specified unlocking script, prepend it to the locking script
+            // The two scripts are joined element by element: joining their bytes and reading them again would let an
+            // element of the unlocking script that declares more data than it holds absorb the locking script
             Some(locking_script) => {
-                let mut unlocking_script_bytes = self.unlocking_script.to_bytes();
-                let locking_script_bytes = locking_script.to_bytes();
-
-                unlocking_script_bytes.extend_from_slice(&locking_script_bytes);
-                Script::from_bytes(&unlocking_script_bytes)
+                let mut script_bits = self.unlocking_script.to_script_bits();
+                script_bits.extend(locking_script.to_script_bits());
+                Ok(Script::from_script_bits(script_bits))
             }
             None => Ok(self.unlocking_script.clone()),
         }
